@@ -6,12 +6,12 @@ CONSTANTS Kinds = {"plain"}
           PlainMethKeys = {"G", "P", "GR"}
           MaxLen = 2
           MaxT = 2
-          ServerSet = {"schemes", "ports", "dup", "absbv", "relbv", "absbvx", "relbvx", "abshx", "abspx", "psschemes", "absschv", "schvdup", "psrel", "psvar"}
+          ServerSet = {"schemes", "ports", "dup", "absbv", "relbv", "absbvx", "relbvx", "abshx", "abspx", "psschemes", "absschv", "schvdup", "psrel", "psvar", "abspe", "abspe2", "abshe"}
           CoreLen = 2
           CoreT = 1
-          CoreServers = {"schemes", "ports", "dup", "absbv", "relbv", "absbvx", "relbvx", "abshx", "abspx", "psschemes", "absschv", "schvdup", "psrel", "psvar"}
-          Slice = 6
+          CoreServers = {"schemes", "ports", "dup", "absbv", "relbv", "absbvx", "relbvx", "abshx", "abspx", "psschemes", "absschv", "schvdup", "psrel", "psvar", "abspe", "abspe2", "abshe"}
+          Slice = 12
           Seed = 1
-          DesignAll = TRUE
+          DesignAll = FALSE
 INVARIANTS DesignOK Emit
 CHECK_DEADLOCK FALSE
